@@ -511,6 +511,41 @@ def job_clone_keeps_estimate(nant, npol):
     return recs
 
 
+def job_estimate_after_stream(taps, P):
+    """a seeded unit-noise estimate made on a filterbank that already streamed data (a recording leaves its tail in the
+    cache) equals the estimate of a fresh filterbank with the same seed: the earlier stream is no input to it"""
+    recs = []
+    tag = f"C12:estimate-after-stream:{(taps, P)}"
+    px = proxy()
+    with volt_patches(proxy=px):
+        used, fresh = PF.PolyphaseFilterbank(num_taps=taps, num_branches=P), PF.PolyphaseFilterbank(num_taps=taps, num_branches=P)
+        w = npx.sarr([Sym(z3.Real(f'w_{m}')) for m in range(taps * P)])
+        used.window, fresh.window = w, w
+        used.channelize(npx.sarr([Sym(z3.Real(f'earlier_{k}')) for k in range(2 * taps * P)]), cache=True)
+        a = used.estimate_channelized_stds(factor=2 * taps, seed=31)
+        b = fresh.estimate_channelized_stds(factor=2 * taps, seed=31)
+    dis = []
+    for x, y in zip(a, b):
+        rx, ry = getattr(x, 'radicand', None), getattr(y, 'radicand', None)
+        tx, ty = (rx if rx is not None else lift(x) * lift(x)), (ry if ry is not None else lift(y) * lift(y))
+        d = z3.simplify(tx - ty, som=True)
+        if not (z3.is_rational_value(d) and d.numerator_as_long() == 0):
+            dis.append(d != 0)
+    r, _ = core.check(list(core.GLOBAL_SIDE) + ([z3.Or(*dis)] if dis else [z3.BoolVal(False)]), timeout_ms=60000)
+    recs.append(q(tag, r, by_solver=len(dis)))
+    if r == 'sat':
+        recs.append(cex('C12:estimate-after-stream', 'a seeded unit-noise estimate depends on what the filterbank streamed before', dict(fn='estimate_after_stream', taps=taps, P=P), name=tag))
+    return recs
+
+
+def replay_estimate_after_stream(p):
+    from setigen.voltage import polyphase_filterbank as pf
+    used, fresh = (pf.PolyphaseFilterbank(num_taps=4, num_branches=8) for _ in range(2))
+    used.channelize(100.0 * np.random.default_rng(1).standard_normal(64 * 8), cache=True)
+    a, b = np.asarray(used.estimate_channelized_stds(factor=50, seed=31)), np.asarray(fresh.estimate_channelized_stds(factor=50, seed=31))
+    return (not np.array_equal(a, b)), f"seeded estimate after streaming {a.tolist()}, on a fresh filterbank {b.tolist()}"
+
+
 def replay_clone_estimate(p):
     from setigen.voltage import backend as bk, polyphase_filterbank as pf, quantization as qz, antenna as an
     nant, npol = p['nant'], p['npol']
@@ -803,7 +838,7 @@ def replay_seeded(p):
     return (not np.array_equal(outs[0], outs[1])), f"{p['kind']}: two runs with identical seeds differ (max abs diff {np.max(np.abs(outs[0] - outs[1])) if outs[0].shape == outs[1].shape else 'shape'})"
 
 
-REPLAYS = {'clone_estimate': replay_clone_estimate, 'history': replay_history, 'history_source': replay_history_source, 'seeded': replay_seeded, 'copy': replay_concrete_job(job_copy), 'cross': replay_concrete_job(job_history_cross), 'distinct': replay_concrete_job(job_distinct)}
+REPLAYS = {'estimate_after_stream': replay_estimate_after_stream, 'clone_estimate': replay_clone_estimate, 'history': replay_history, 'history_source': replay_history_source, 'seeded': replay_seeded, 'copy': replay_concrete_job(job_copy), 'cross': replay_concrete_job(job_history_cross), 'distinct': replay_concrete_job(job_distinct)}
 
 
 def main():
@@ -840,6 +875,8 @@ def main():
         jobs.append(('job_history_array', (delays, fb_, npol, source)))
     for (na_, np_) in ((1, 2), (2, 1)):
         jobs.append(('job_clone_keeps_estimate', (na_, np_)))
+    for (t_, P_) in ((1, 2), (2, 4)):
+        jobs.append(('job_estimate_after_stream', (t_, P_)))
     for order in ('array-then-single', 'single-then-array'):
         jobs.append(('job_history_cross', (order,)))
     jobs.append(('job_copy', ()))
